@@ -598,6 +598,12 @@ func (u *Unit) frameObligations(st *State) {
 	if !u.frame().active || u.frame().everything {
 		return
 	}
+	if u.con.frameAssumed != "" {
+		// the frame of this function is an assumption (listed in the evidence); its
+		// other obligations are verified
+		u.noteHavoc("assumed frame of " + u.name + ": " + u.con.frameAssumed)
+		return
+	}
 	var keys []string
 	for k := range u.heapSorts {
 		keys = append(keys, k)
